@@ -116,17 +116,19 @@ def watermark_rule(ctx):
                  "watermark arrives first)", floor=1)
     f = "hydro_lang/src/compile/ir/mod.rs"
     d = synfacts.scan([f])
-    tpls = [m for v in d.values() for m in v["macros"] if m["macro"] in ("parse_quote", "parse_quote_spanned") and "retain" in m["text"] and "watermark" in m["text"]]
+    tpls = [m for v in d.values() for m in v["macros"] if m["macro"] in ("parse_quote", "parse_quote_spanned") and re.search(r"\. retain \(", m["text"]) and "->" in m["text"]]
     if not tpls:
-        ctx.anchor_missing(R, "watermarked reduce template (retain + watermark) in emit_core")
+        ctx.anchor_missing(R, "watermarked reduce template (a DFIR template with a `.retain(` collection) in emit_core")
         return
     for i, m in enumerate(tpls):
         t = m["text"]
         key = "hydro_lang|emit_core|ReduceKeyedWatermark#%d" % (i + 1)
-        rej = re.findall(r"if (\w+) (<=|>=|<|>) (\w*watermark\w*) \{ return ; \}", t)
-        keep = re.findall(r"retain \( \| (\w+) , _ \| \* \1 (<=|>=|<|>) (\w*watermark\w*) \)", t)
-        # the guard on the key (not the guard that ignores stale watermarks, whose left operand is itself a watermark)
-        rej = [r for r in rej if "watermark" not in r[0]]
+        # the key variable is the one bound from the payload: `if let Some((k, v)) = <payload>`
+        kv = re.findall(r"if let Some \( \( (\w+) , \w+ \) \) =", t)
+        keep = re.findall(r"retain \( \| (\w+) , _ \| \* \1 (<=|>=|<|>) (\w+) \)", t)
+        rej = []
+        for kvar in kv:
+            rej += re.findall(r"if (%s) (<=|>=|<|>) (\w+) \{ return ; \}" % re.escape(kvar), t)
         ctx.inst(R, key, sites=len(rej) + len(keep), sample={"line": m["line"], "arrival_guard": rej, "retain": keep})
         if len(rej) != 1 or len(keep) != 1:
             ctx.violation(R, key + "|unrecognised-form", "cannot read exactly one arrival guard and one retain predicate from the template (%d, %d)" % (len(rej), len(keep)), "%s:%s" % (f, m["line"]))
